@@ -31,6 +31,15 @@ Example C30_partial_example :
                OWConstruct 0 ["flag"] false; ORun 0 false; OSet 0 "x" (AVal (VInt 7%Z)); ORun 0 false ] = false.
 Proof. vm_compute. reflexivity. Qed.
 
+(* ... and in that history the run really goes through a superset-of-lazy hit (the theorem is not
+   vacuous on the interesting path): model and spec both give 105 *)
+Example C30_superset_path_example :
+  let h := [ ONew W_cond [("x", AVal (VInt 5%Z)); ("flag", AVal (VInt 1%Z))];
+             OWConstruct 0 ["flag"] false; ORun 0 false ] in
+  nth 2 (c_history h) NoObs = ObsOut (Some (VInt 105%Z)) (Some Superset) /\
+  nth 2 (c_spec_history h) SNone = SOut (Some (VInt 105%Z)).
+Proof. vm_compute. split; reflexivity. Qed.
+
 (* the same for ANY value type, class type, constructor, resolution and execution function and
    any digests, under the explicit hypotheses: digest comparison is equality, no collisions,
    distinct field names *)
